@@ -91,6 +91,14 @@ Proof.
   rewrite E. apply rstrip_app_nonspace. exact Hc.
 Qed.
 
+Lemma strip_c_block x B X' ch :
+  x <> NL -> ch <> NL -> x :: B = X' ++ [ch] -> strip_c NL ((x :: B) ++ [NL]) = x :: B.
+Proof.
+  intros Hx Hc E. unfold strip_c. simpl app. rewrite lstrip_c_other by exact Hx.
+  change (x :: B ++ [NL]) with ((x :: B) ++ [NL]). rewrite rstrip_c_app_same.
+  rewrite E. apply rstrip_c_app_other. exact Hc.
+Qed.
+
 (* ------------------------------------------------------------------ cxt *)
 
 Lemma row_str_no_nl r : ~ In NL (row_str r).
@@ -268,15 +276,11 @@ Proof.
 Qed.
 
 Lemma csv_word_ok_spec sep w :
-  csv_word_okb sep w = true -> ~ In sep w /\ Forall (fun c => is_space c = false) w.
+  csv_word_okb sep w = true -> ~ In sep w /\ ~ In NL w.
 Proof.
-  unfold csv_word_okb. rewrite andb_true_iff, negb_true_iff. intros [H1 H2]. split.
-  - apply has_char_false. exact H1.
-  - apply Forall_forall. intros c Hc. rewrite forallb_forall in H2. apply negb_true_iff. apply H2. exact Hc.
+  unfold csv_word_okb. rewrite !andb_true_iff, !negb_true_iff. intros [[H1 H2] _].
+  split; apply has_char_false; assumption.
 Qed.
-
-Lemma space_free_no_nl w : Forall (fun c => is_space c = false) w -> ~ In NL w.
-Proof. intros H Hin. rewrite Forall_forall in H. specialize (H NL Hin). discriminate H. Qed.
 
 Lemma parse_lines_ok sep wt wf onames t :
   str_eqb wt wf = false -> ~ In sep wt -> ~ In sep wf ->
@@ -304,8 +308,8 @@ Theorem csv_roundtrip sep wt wf K :
   read_csv sep wt wf (write_csv sep wt wf K)
   = SOk (mk_sctx (sc_onames K) (sc_anames K) None (sc_table K)).
 Proof.
-  unfold csv_admissibleb, csv_statedb, D21_guard. rewrite !andb_true_iff, !negb_true_iff.
-  intros [[[[[[[[Hok HsNL] HsCR] Hon] Han] Hwt] Hwf] Hne] Hsp].
+  unfold csv_admissibleb. rewrite !andb_true_iff, !negb_true_iff.
+  intros [[[[[[[Hok HsNL] HsCR] Hon] Han] Hwt] Hwf] Hne].
   pose proof (table_okb_spec K Hok) as [Hn [Hwd [Hf [Ho Ha]]]].
   destruct K as [on an desc t]. simpl in *.
   destruct (csv_word_ok_spec _ _ Hwt) as [Wt1 Wt2]. destruct (csv_word_ok_spec _ _ Hwf) as [Wf1 Wf2].
@@ -329,15 +333,13 @@ Proof.
     rewrite zip_lines_concat. rewrite <- join_concat by discriminate. simpl concat.
     fold LS. unfold HEADER. simpl. rewrite <- app_assoc. reflexivity. }
   rewrite EW. unfold read_csv.
-  (* every line is free of line breaks *)
+  (* no word row contains a line break *)
+  assert (WordsF : forall r, Forall (fun c => c <> NL) (join_char sep (map (word wt wf) r))).
+  { intros r. apply join_forall; [exact HsepNL|]. apply Forall_forall. intros w Hw.
+    apply in_map_iff in Hw. destruct Hw as [b [E _]]. subst w.
+    apply Forall_forall. intros c Hc E. subst c. destruct b; [apply Wt2 | apply Wf2]; exact Hc. }
   assert (WordsNL : forall r, ~ In NL (join_char sep (map (word wt wf) r))).
-  { intros r Hin.
-    assert (F : Forall (fun c => c <> NL) (join_char sep (map (word wt wf) r))).
-    { apply join_forall; [exact HsepNL|]. apply Forall_forall. intros w Hw.
-      apply in_map_iff in Hw. destruct Hw as [b [E _]]. subst w.
-      apply Forall_forall. intros c Hc E. subst c.
-      destruct b; [apply (space_free_no_nl _ Wt2) | apply (space_free_no_nl _ Wf2)]; exact Hc. }
-    rewrite Forall_forall in F. apply (F NL Hin). reflexivity. }
+  { intros r Hin. pose proof (WordsF r) as F. rewrite Forall_forall in F. apply (F NL Hin). reflexivity. }
   assert (LinesNL : Forall (fun l => ~ In NL l) (HEADER :: LS)).
   { constructor.
     - unfold HEADER. intros [E|Hin]; [apply HsepNL; exact E|].
@@ -350,8 +352,8 @@ Proof.
       + rewrite Forall_forall in On2. apply (On2 g Hg). exact Hin.
       + apply HsepNL. exact E.
       + apply (WordsNL r). exact Hin. }
-  (* strip only removes the final line break *)
-  assert (ES : strip (join_char NL (HEADER :: LS) ++ [NL]) = join_char NL (HEADER :: LS)).
+  (* strip('\n') only removes the final line break *)
+  assert (ES : strip_c NL (join_char NL (HEADER :: LS) ++ [NL]) = join_char NL (HEADER :: LS)).
   { assert (EB' : exists B, join_char NL (HEADER :: LS) = sep :: B) by (unfold HEADER; apply join_starts).
     destruct EB' as [B EB]. rewrite EB.
     destruct (exists_last NLS) as [L0 [ll Ell]].
@@ -359,13 +361,12 @@ Proof.
     apply In_csv_lines in Hll. destruct Hll as [g [r [_ [_ Eg]]]].
     assert (Hne' : sep :: join_char sep (map (word wt wf) r) <> []) by discriminate.
     destruct (exists_last Hne') as [J0 [ch Ech]].
-    assert (Hch : is_space ch = false).
-    { assert (F : Forall (fun c => is_space c = false) (sep :: join_char sep (map (word wt wf) r))).
-      { constructor; [exact Hsp|]. apply join_forall; [exact Hsp|]. apply Forall_forall. intros w Hw.
-        apply in_map_iff in Hw. destruct Hw as [b [E _]]. subst w. destruct b; assumption. }
+    assert (Hch : ch <> NL).
+    { assert (F : Forall (fun c => c <> NL) (sep :: join_char sep (map (word wt wf) r)))
+        by (constructor; [exact HsepNL | apply WordsF]).
       rewrite Forall_forall in F. apply F. rewrite Ech. apply in_or_app. right. left. reflexivity. }
     destruct (join_ends NL (HEADER :: L0) (g ++ J0) ch) as [X' EX].
-    apply (strip_block sep B X' ch); [exact Hsp | exact Hch|].
+    apply (strip_c_block sep B X' ch); [exact HsepNL | exact Hch|].
     rewrite <- EX, <- EB. f_equal. rewrite Ell, Eg, Ech. cbn [app].
     rewrite <- (app_assoc g J0 [ch]). reflexivity. }
   rewrite ES. rewrite split_join_char by (try discriminate; exact LinesNL).
